@@ -249,6 +249,37 @@ func runC15Join(c *Ctx) {
 				if !ok || lo.Op != token.ADD {
 					continue
 				}
+				// label position and label width chosen together by an earlier branch
+				// (start, width := Index(clause, Zh), len(Zh); if start == -1 { start, width = Index(clause, En), len(En) })
+				if px, okx := lo.X.(*ssa.Phi); okx {
+					if py, oky := lo.Y.(*ssa.Phi); oky && px.Block() == py.Block() && len(px.Edges) == len(py.Edges) {
+						for k := range px.Edges {
+							nSl++
+							c.Sites++
+							var idxc *ssa.Call
+							var w int64 = -1
+							for _, e := range []ssa.Value{px.Edges[k], py.Edges[k]} {
+								if call, ok := e.(*ssa.Call); ok && calleeName(&call.Call) == "strings.Index" {
+									idxc = call
+								}
+								if kk, ok := constInt(e); ok {
+									w = kk
+								}
+							}
+							if idxc == nil || w < 0 {
+								bad = append(bad, "explanation does not start at Index(clause,label)+len(label) at "+p.Pos(sl.Pos()))
+								continue
+							}
+							lbl, isC := constString(idxc.Call.Args[1])
+							if idxc.Call.Args[0] != sl.X {
+								bad = append(bad, "the label is searched in a different text than the one cut at "+p.Pos(sl.Pos()))
+							} else if !isC || int64(len(lbl)) != w {
+								bad = append(bad, fmt.Sprintf("the offset skipped after the label (%d bytes) is not the length of the label that was found (%q) at %s", w, lbl, p.Pos(sl.Pos())))
+							}
+						}
+						continue
+					}
+				}
 				nSl++
 				c.Sites++
 				var idx, ln *ssa.Call
